@@ -178,7 +178,9 @@ func (w *World) FieldAccesses(fs []*ssa.Function, fv *types.Var) []fieldAccess {
 			case *ssa.Return:
 				out = append(out, fieldAccess{x, false, fresh, "address returned"})
 			case ssa.CallInstruction:
-				out = append(out, fieldAccess{x, !w.TS.callOnlyReads(x, fa, 0), fresh, "address passed to call"})
+				// the callee may write through the address if its (parameter-relative) mod set touches
+				// a field reachable inside the pointee
+				out = append(out, fieldAccess{x, w.calleeWritesInto(x, fa, fv.Type()), fresh, "address passed to call"})
 			case *ssa.DebugRef:
 			default:
 				if ins, ok := r.(ssa.Instruction); ok {
@@ -374,14 +376,9 @@ func (w *World) writesAnyField(ins ssa.Instruction, fields map[*types.Var]bool) 
 			}
 			return nil
 		}
-		for _, e := range w.CG.SiteOut[ins] {
-			if e.Mode == ModeGo {
-				continue
-			}
-			for fv := range w.MR.Mod[e.Callee] {
-				if fields[fv] {
-					return fv
-				}
+		for fv := range w.MR.SiteMod(ins, -1) {
+			if fields[fv] {
+				return fv
 			}
 		}
 	}
@@ -437,4 +434,51 @@ func instrsAfter(ins ssa.Instruction) []ssa.Instruction {
 		stack = append(stack, x.Succs...)
 	}
 	return out
+}
+
+// reachableFields: struct fields inside t without following pointers (arrays and nested structs are
+// followed; maps/slices held in such fields count as part of the value).
+func reachableFields(t types.Type, out map[*types.Var]bool, depth int) {
+	if depth > 4 {
+		return
+	}
+	switch u := t.Underlying().(type) {
+	case *types.Struct:
+		for i := 0; i < u.NumFields(); i++ {
+			f := u.Field(i)
+			out[f] = true
+			reachableFields(f.Type(), out, depth+1)
+		}
+	case *types.Array:
+		reachableFields(u.Elem(), out, depth+1)
+	}
+}
+
+// calleeWritesInto: some synchronous callee of the call may write a field that lives inside a value
+// of type t (the pointee whose address the call receives).
+func (w *World) calleeWritesInto(call ssa.CallInstruction, addr ssa.Value, t types.Type) bool {
+	fields := map[*types.Var]bool{}
+	reachableFields(t, fields, 0)
+	ins := call.(ssa.Instruction)
+	es := w.CG.SiteOut[ins]
+	if len(es) == 0 {
+		// external / opaque callee: fall back to the read-only test
+		return true
+	}
+	argIdx := -1
+	c := call.Common()
+	for i, a := range c.Args {
+		if a == addr {
+			argIdx = i
+		}
+	}
+	if _, isGo := ins.(*ssa.Go); isGo {
+		return true
+	}
+	for fv := range w.MR.SiteMod(ins, argIdx) {
+		if fields[fv] {
+			return true
+		}
+	}
+	return false
 }
